@@ -18,7 +18,7 @@ RULE = ("a case = (entry point, protocol phase, adversarial byte string the simu
         "retransmissions get the same bytes; one case in six the peer closes (FIN) or resets the connection right after them, and a close/reset alone or after a partial header is tried in every phase at every entry point). Strings come from grammar-aware mutation of valid V2/V3 traffic: every header field at "
         "boundary values with and without a recomputed signature, authentic packets whose header fields (message type, magic, message id, every byte of the timestamp incl. non-calendar values, device id, reserved) hold boundary values, correctly signed random/empty/mis-padded ciphertext, ciphertext lengths "
         "not a multiple of 16, correct SHA-256 tag over garbage, every type nibble 0..15 in every phase (pre-auth, handshake, data), size "
-        "fields 0/65535, truncations, several packets per segment, random bytes. Allowed outcomes: LAN.send -> frames | ProtocolError | "
+        "fields 0/65535, truncations, several packets per segment, floods of 300-3000 individually valid packets in one reply, random bytes. Allowed outcomes: LAN.send -> frames | ProtocolError | "
         "TimeoutError; LAN.authenticate -> return | ProtocolError | TimeoutError; Device.authenticate -> return | AuthenticationError; "
         "Device._send_command / AirConditioner.refresh / apply / get_capabilities / toggle_display (also when the V3 handshake happens implicitly inside them after a reconnect) -> return only. distinct = (entry point, phase, bytes); non-trivial = all")
 ASSUMPTIONS = ["one item in four runs with max_connection_lifetime set to 1, 3 or 5 s, so that the lifetime elapses while the exchange is still waiting for the peer",
@@ -103,6 +103,14 @@ def generate(ctx, rng):
         if g:
             yield ("b", n), {"driver": driver, "items": g}
             n += 1
+    # volume: thousands of (individually harmless) packets in one reply
+    from ..ref import v2 as _v2
+    floods = {"flood-empty-frames": _v2.build(b"", 7), "flood-valid-frames": _v2.build(A.GOOD_FRAME, 7), "flood-one-byte-frames": _v2.build(b"\xaa", 7)}
+    for name, pkt in floods.items():
+        for count in (300, 1200, 3000):
+            yield ("flood", name, count, "v2"), {"driver": "v2/lan.send", "items": [{"label": name, "bytes": pkt, "then": None, "repeat": count}]}
+            yield ("flood", name, count, "v2r"), {"driver": "v2/refresh", "items": [{"label": name, "bytes": pkt, "then": None, "repeat": count}]}
+            yield ("flood", name, count, "v3"), {"driver": "v3data/lan.send", "items": [{"label": name, "bytes": A.v3_wrap(SKEY, pkt, 9), "then": None, "repeat": count}]}
     # nothing but a close / reset in place of the reply, in every phase and at every entry point
     for driver in V2_DRIVERS + V3_PRE_DRIVERS + V3_DATA_DRIVERS:
         yield ("close", driver), {"driver": driver, "items": [{"label": "silent", "bytes": b"", "then": None, "lifetime": lt} for lt in (None, 1, 3, 5)] +
@@ -132,6 +140,8 @@ def run_case(ctx, case):
     cur = {"bytes": None, "hs": None, "unsolicited": None, "then": None}
 
     def acts(b):
+        if cur.get("repeat"):
+            return [(0, b)] * cur["repeat"]          # each its own segment, all at the same instant
         return ([(0, b)] if b else []) + ([(0, cur["then"])] if cur["then"] else [])
 
     def on_exchange(conn, req, packets, meta):
@@ -152,7 +162,7 @@ def run_case(ctx, case):
 
     async def one(it):
         adv = bytes(it["bytes"])
-        cur.update(bytes=None, hs=None, unsolicited=None, then=None)
+        cur.update(bytes=None, hs=None, unsolicited=None, then=None, repeat=None)
         ac = AC(ip=dev.host, port=dev.port, device_id=dev.device_id)
         lan = ac._lan
         if it.get("lifetime"):
@@ -175,6 +185,7 @@ def run_case(ctx, case):
         else:
             cur["hs"] = adv
         cur["then"] = it.get("then")
+        cur["repeat"] = it.get("repeat")
         if ep == "lan.send-twice-id0":
             # a client that does not know the device's id (0, the command line default): the peer's bytes, then a normal exchange
             try:
@@ -220,7 +231,7 @@ def run_case(ctx, case):
         b = bytes(it["bytes"])
         label = it["label"]
         outcome = "returned" if exc is None else ("allowed-" + type(exc).__name__ if isinstance(exc, allowed) else "ESCAPED-" + type(exc).__name__)
-        ctx.count((driver, b), kind=f"{driver}:{outcome}", sample={"driver": driver, "label": label, "bytes": b, "outcome": outcome})
+        ctx.count((driver, b, it.get("repeat")), kind=f"{driver}:{outcome}", sample={"driver": driver, "label": label, "bytes": b, "outcome": outcome})
         if unh:
             ctx.bump("exceptions-inside-protocol-callbacks", unh)
         if exc is not None and not isinstance(exc, allowed):
